@@ -1,4 +1,5 @@
 import UralModel.Lemmas.Canonicalize
+import UralModel.Lemmas.Normpath
 /-!
 # C01 — canonicalize_url never changes where the URL leads
 
@@ -6,13 +7,13 @@ The model (`Model/Canonicalize.lean`) takes what the real `urlsplit` returns for
 input (`Parsed`) and produces the components of the result (`canonComps`), which
 `unsplit_netloc` + `urlunsplit` then print.  The theorems below say, component by component
 and for EVERY parsed input and option setting, that the result denotes the same resource
-(`view`-equality of DESIGN §6 C01).  Re-parsing of the printed result is CPython's
+(`view`-equality of DESIGN §6 C01; the path clause: `canon_path`).  Re-parsing of the printed result is CPython's
 `urlsplit`: that it gives back these components is checked on every run by the oracle
 (which re-parses the real output), and supported here by `canon_no_new_delimiter`
 (no component acquires a raw delimiter that would move a component boundary).
 -/
 namespace Ural.Props.C01
-open Ural Ural.Py Ural.UrlParts Ural.Quote Ural.Canonicalize
+open Ural Ural.Py Ural.UrlParts Ural.Quote Ural.Canonicalize Ural.Normpath
 
 /-- decoded bytes of an optional component; absent and empty are identified -/
 def optPct (o : Option Str) : List UInt8 := pctStr (o.getD [])
@@ -137,8 +138,8 @@ theorem path_quote_view (path : Str) : pathView (safelyQuote path) = pathView pa
 from the unescaped input path (`canonPath`), the path of the result has the view of `cp`, and
 the unescaped input path has the view of the input path.  What remains between the two —
 that `normpath` + the trailing-slash and empty-path rules compute `pathView` of their
-argument — is the plain-string resolution, compared with the implementation and checked by
-the oracle on every run (not yet a theorem: `UNPROVED` in the evidence). -/
+argument — is the plain-string resolution: `normpath_view` below; `canon_path` puts the two
+halves together. -/
 theorem canon_path_escaping (puny : Str → Str) (quoted sf : Bool) (p : Parsed) :
     ∃ cp, pathView (canonComps puny quoted sf p).path = pathView cp ∧
       cp = canonPath p.path (!p.query.isEmpty || truthy (if sf then none else some p.fragment)) ∧
@@ -148,6 +149,84 @@ theorem canon_path_escaping (puny : Str → Str) (quoted sf : Bool) (p : Parsed)
   cases quoted with
   | false => simp [path_unquote_view]
   | true => simp [path_quote_view]
+
+
+/-! ## path: the resolution half, and the full clause
+
+`Lemmas/Normpath.lean`: on an absolute path (`absPath`: empty, or starting with `/` — what
+`urlsplit` returns for a URL with an authority, and `ensure_protocol` guarantees one; checked
+on every parsed case by the `path_hyp` line of the correspondence stream) the path rule
+(`endswith(("/", "/.", "/.."))`, `normpath`, empty-path rule, re-appended slash) is
+`renderSegs ∘ segView`: it computes the resolved segments (`..` never pops the root) and the
+trailing-slash flag, and the view of the result is the view of the input. -/
+
+/-- `pathView` is the decoded view of `Lemmas/Normpath.lean` -/
+theorem pathView_eq_byteView (path : Str) : pathView path = byteView path := rfl
+
+/-- **plain-string level**: the path rule keeps the resolved segments and the trailing-slash
+flag of every absolute path (`segView`: split on `/`, resolve `.`, `..`, empty segments) -/
+theorem resolve_view (q : Str) (hasMore : Bool) (h : absPath q = true) :
+    segView (resolvePath q hasMore) = segView q :=
+  segView_resolvePath q hasMore h
+
+/-- **`normpath` computes the view**: on an absolute path, `normpath` returns the resolved
+segments, each preceded by a slash (the empty string at the root) -/
+theorem normpath_segments (q : Str) :
+    normpath ('/' :: q) =
+      if (segView ('/' :: q)).1 = [] then [] else '/' :: join ['/'] (segView ('/' :: q)).1 :=
+  normpath_abs q
+
+/-- **decoded level (`normpath_view`)**: for every absolute input path, the path that
+`canonPath` computes (unescape, trailing-slash test, `normpath`, empty-path rule) has the
+same percent-decoded resolved segments and the same trailing-slash flag as the input path.
+The root identification `""` ≡ `"/"` is built into `pathView` (`pathView_root`). -/
+theorem normpath_view (path : Str) (hasMore : Bool) (h : absPath path = true) :
+    pathView (canonPath path hasMore) = pathView path := by
+  rw [canonPath_eq, pathView_eq_byteView,
+    byteView_resolvePath _ hasMore (absPath_unquotePath path h) (unquotePath_idem path),
+    ← pathView_eq_byteView, path_unquote_view]
+
+/-- the two spellings of the root have the same view: no segments, no flag -/
+theorem pathView_root : pathView [] = ([], false) ∧ pathView ['/'] = ([], false) := by decide
+
+/-- **the path clause of C01**: for every parsed input whose path is absolute, every option
+setting: the path of the result has the same sequence of percent-decoded segments after `.`,
+`..` and empty-segment resolution, and the same trailing-slash flag, as the input path -/
+theorem canon_path (puny : Str → Str) (quoted sf : Bool) (p : Parsed) (h : absPath p.path = true) :
+    pathView (canonComps puny quoted sf p).path = pathView p.path := by
+  obtain ⟨cp, h1, h2, _⟩ := canon_path_escaping puny quoted sf p
+  rw [h1, h2]
+  exact normpath_view _ _ h
+
+/-- the root case, explicitly: a path that resolves to the root becomes `"/"` when a query or
+a fragment follows and `""` otherwise, in both modes -/
+theorem canon_path_root (puny : Str → Str) (quoted sf : Bool) (p : Parsed)
+    (h : absPath p.path = true) (hroot : (pathView p.path).1 = []) :
+    (canonComps puny quoted sf p).path =
+      if (!p.query.isEmpty || truthy (if sf then none else some p.fragment)) then ['/'] else [] := by
+  have hv : (segView (unquotePath p.path)).1 = [] := by
+    have e := byteView_eq _ (dotHonest_segments (unquotePath_idem p.path))
+    rw [← path_unquote_view, pathView_eq_byteView, e] at hroot
+    simpa using hroot
+  simp only [canonComps]
+  rw [canonPath_render _ _ h]
+  simp only [renderSegs, hv, List.isEmpty_nil, if_true]
+  generalize (!p.query.isEmpty || truthy (if sf then none else some p.fragment)) = m
+  cases quoted <;> cases m <;> decide
+
+/-- the hypothesis is needed: on a relative path `normpath` cannot pop the first segment -/
+example : pathView (canonPath "a/..".toList false) ≠ pathView "a/..".toList := by decide
+
+/-- non-vacuity: dot segments (one spelled `%2E%2E`), an empty segment, an escaped slash, an
+undecodable byte and a trailing `/.`; root cases -/
+example :
+    canonPath "/a//b/%2E%2E/./c%2Fd/%E9/x/../.".toList false = "/a/c%2Fd/%E9/".toList ∧
+    pathView "/a//b/%2E%2E/./c%2Fd/%E9/x/../.".toList =
+      ([[0x61], [0x63, 0x2F, 0x64], [0xE9]], true) ∧
+    pathView "/a/c%2Fd/%E9/".toList = ([[0x61], [0x63, 0x2F, 0x64], [0xE9]], true) ∧
+    canonPath "/a/../..".toList true = "/".toList ∧ canonPath "/a/../..".toList false = [] ∧
+    canonPath "/../a".toList false = "/a".toList := by
+  decide +kernel
 
 /-! ## no delimiter is created -/
 
